@@ -259,3 +259,32 @@ def identity_compares(fi):
                 if isinstance(op, (ast.Is, ast.IsNot)) and not fine(operands[i]) and not fine(operands[i + 1]):
                     out.append(c)
     return out
+
+
+def _mutable_default_sites(funcs):
+    out = []
+    for fi, node in funcs:
+        a = node.args
+        pos = a.posonlyargs + a.args
+        pairs = list(zip(pos[len(pos) - len(a.defaults):], a.defaults)) + [(k, v) for k, v in zip(a.kwonlyargs, a.kw_defaults) if v is not None]
+        for p, v in pairs:
+            if isinstance(v, (ast.List, ast.Dict, ast.Set, ast.ListComp, ast.DictComp, ast.SetComp)) or (
+                    isinstance(v, ast.Call) and unparse(v.func) in ("list", "dict", "set", "defaultdict", "collections.defaultdict", "deque", "OrderedDict")):
+                out.append((fi, node, p.arg, v))
+    return out
+
+
+def mutable_defaults(idx, rep, rid):
+    """a list/dict/set literal as a parameter default is one object shared by every call: state kept in it (a Result's errors, a path's
+    variables) survives from one member, run or instance into the next.  Expected count on this code base: zero; the detector is
+    exercised on a built-in positive example on every run."""
+    probe = ast.parse("def f(self, errors=[], *, seen={}, n=0, t=()):\n    self._errors = errors\n").body[0]
+    ctl = _mutable_default_sites([(None, probe)])
+    if [c[2] for c in ctl] != ["errors", "seen"]:
+        raise AnalysisError(f"{rep.pid}.{rid}: the mutable-default detector does not recognise its positive example ({[c[2] for c in ctl]})")
+    funcs = [(fi, fi.node) for fi in idx.all_funcs("csvpath/")]
+    sites = _mutable_default_sites(funcs)
+    for fi, node, arg, v in sites:
+        rep.fail(rid, f"{fi.file}::{fi.qual} parameter {arg} has a mutable default", f"`{arg}={unparse(v)}` is created once and shared by every call that omits it: whatever one "
+                 "member/run stores in it is seen by the next", where(fi, node))
+    rep.check(len(funcs) > 1000 and not sites, rid, "csvpath::no mutable default arguments", f"{len(funcs)} functions scanned, {len(sites)} mutable defaults", "csvpath/")
